@@ -118,6 +118,10 @@ def make_case(i, rng, tier):
         blob, _ = medium.write_pcapng([data[a:b] for a, b in zip(bb, bb[1:]) if b > a], rng)
     else:
         blob = data if rng.random() < 0.5 else medium.write_hex(data, rng, noise=False)
+    if fmt == "hex" and fam == "wellformed" and rng.random() < 0.08:
+        # what editors, shells and other tools leave in a text file: a byte order mark, a 0x prefix, a comment line, quotes
+        blob = rng.choice((b"\xef\xbb\xbf", b"\xff\xfe", b"0x", b"# tpm trace\n", b"\"", b"hex:", b"\x00")) + blob
+        fam = "text-artefact"
     cuts = sorted(rng.randrange(len(blob) + 1) for _ in range(rng.randint(1, 2))) if how == "files" else []
     if how == "files":
         # a piece may start with bytes that look like some other file format, or be empty
@@ -204,12 +208,23 @@ def _library_lines(case, blob):
     cc = world.Task._cc(case["cc"])
     ev = real.FRONTS[fr].marshal(tpm_type=real.get_type(case["root"]), buffer=blob, command_code=cc, abort_on_error=False)
     text = ""
-    for line in fo.unmarshal(ev):
-        if isinstance(line, bytes):
-            text += " " + binascii.hexlify(line).decode()
-        else:
-            text += "%s\n" % line
+    try:
+        for line in fo.unmarshal(ev):
+            if isinstance(line, bytes):
+                text += " " + binascii.hexlify(line).decode()
+            else:
+                text += "%s\n" % line
+    except Exception as e:
+        raise _LibRaised(text, e)
     return text
+
+
+class _LibRaised(Exception):
+    """the library call raised; .text = what it had produced until then"""
+
+    def __init__(self, text, exc):
+        Exception.__init__(self, "%s: %s" % (type(exc).__name__, exc))
+        self.text, self.exc = text, exc
 
 
 def check(case):
@@ -261,8 +276,17 @@ def _convert(case, res, tmp):
         blob = b"".join(pieces)             # what the command line names, mention by mention
         case = dict(case, blob=blob.hex())
         res.count("how:files:same-path-repeated")
+    rejected = False
     try:
         expected = _library_lines(case, blob)
+    except _LibRaised as lr:
+        # text that is not a sequence of hex pairs: the library rejects it (ValueError) after the rows of whatever came before;
+        # the command line must not show more than that, and must not report success
+        if isinstance(lr.exc, ValueError) and case.get("family") == "text-artefact" and case["how"] in ("file", "files", "stdin"):
+            expected, rejected = lr.text, True
+        else:
+            res.count("skipped:library-raises:%s" % type(lr.exc).__name__)
+            return
     except Exception as e:
         res.count("skipped:library-raises:%s" % type(e).__name__)
         return
@@ -329,6 +353,13 @@ def _convert(case, res, tmp):
     else:
         argv.append(_write(tmp, "input.bin", blob))
     status, out, err = cli.run_inprocess(argv, stdin)
+    if rejected:
+        res.count("rejected-text-through-the-command-line")
+        if status == 0 or cli.strip(out) != cli.strip(expected):
+            res.v("C19.a", "C19.a:stdout:rejected-text:%s" % case["in"], "%s: the library rejects this text with ValueError after %d line(s); the command line exits %d and prints %d line(s)" % (
+                label, len(cli.strip(expected).splitlines()), status, len(cli.strip(out).splitlines())))
+        res.nontrivial("convert", case["in"], case["out"], case["root"], case["how"], case["blob"])
+        return
     if status != 0:
         res.v("C19.a", "C19.a:status:%s" % ("crash" if "CRASH" in err else "nonzero"),
               "%s: exit status %d, stderr %r; the library call completes" % (label, status, err[-300:]))
